@@ -10,15 +10,21 @@ impl BlockTransactionsVerifier {
         transactions: &[core::TransactionView],
     ) -> Status {
         let block_short_ids = block.block_short_ids();
-        let missing_short_ids: Vec<packed::ProposalShortId> = indexes
-            .iter()
-            .filter_map(|index| {
-                block_short_ids
-                    .get(*index as usize)
-                    .expect("should never outbound")
-                    .clone()
-            })
-            .collect();
+        let mut missing_short_ids: Vec<packed::ProposalShortId> = Vec::with_capacity(indexes.len());
+        for index in indexes {
+            match block_short_ids.get(*index as usize) {
+                Some(Some(short_id)) => missing_short_ids.push(short_id.clone()),
+                Some(None) => {}
+                None => {
+                    return StatusCode::BlockTransactionsLengthIsUnmatchedWithPendingCompactBlock
+                        .with_context(format!(
+                            "Index({}) is out of bound of the pending compact block({})",
+                            index,
+                            block_short_ids.len(),
+                        ));
+                }
+            }
+        }
 
         if missing_short_ids.len() != transactions.len() {
             return StatusCode::BlockTransactionsLengthIsUnmatchedWithPendingCompactBlock
